@@ -205,6 +205,8 @@ func runC19(rc *RunCtx) {
 	}
 	rc.Cfg("plan", strings.Join(plan, ","))
 	outs := make([]outcome, m)
+	s.SwarmFreeze()
+	rc.Cfg("sched", fmt.Sprintf("stall=%d yield_on_release=%v", s.FreezePermille, s.YieldOnRelease))
 	s.SetControlled()
 	for i, k := range plan {
 		i, k := i, k
@@ -239,20 +241,12 @@ func runC19(rc *RunCtx) {
 		return
 	}
 	if effects < budget && effects < m {
-		// every request passes validation while uses remain: with m > budget
-		// requests all budget uses must have been consumed by *some* request;
-		// denied requests consume without effect, so only flag when no
-		// denied-kind request exists that could have consumed them.
-		consumers := 0
-		for _, o := range outs {
-			if !o.effect && (o.kind == "denied") {
-				consumers++
-			}
-		}
-		if effects+consumers < budget {
-			s.Violate("C19", "uses-lost", map[string]any{"n": n, "wasted": wasted, "effects": effects}, "only %d of %d remaining uses were honoured", effects, budget)
-			return
-		}
+		// Fewer effects than remaining uses. The statement is "at most n": a
+		// request that consumed a use and was then refused because another
+		// request's final use had revoked the token in the meantime (reached
+		// with long stalls) loses a use without violating anything. Counted,
+		// not reported (it used to be a violation class; see DESIGN.md 10.4).
+		s.Probe("uses_consumed_without_effect")
 	}
 	s.Probe(fmt.Sprintf("effects_%d_of_%d", effects, budget))
 	c19Epilogue(rc, h, disk, rec, tok, baseline, n)
